@@ -199,6 +199,9 @@ def gen(ctx):
         add('MSG', (hdr(19, t)).hex(), ('mal',))
         add('MSG', (hdr(29, t) + bytes([4, 0xfb, 0xf0, 0, 90, 1, 2, 3, 4, 0])).hex(), ('mal',))
     add('KB', '', ('kb',))
+    # the builder on a target that is not empty (a reused buffer: the last KEEPALIVE, an OPEN, a few stray octets)
+    for stale in (MARKER + struct.pack('>HB', 19, 4), MARKER + struct.pack('>HB', 29, 1) + bytes(10), bytes(3), b'\xff' * 40):
+        add('KB', stale.hex(), ('kb',))
     # 6. OpenBuilder scripts
     for _ in range(400 if quick else 20000):
         ops = []
